@@ -29,6 +29,11 @@ type exprEnv struct {
 	vars   map[string]typedTerm
 	result []typedTerm
 	err    string
+	idxTerms []Term // index terms seen (candidates for quantifier patterns)
+	triggers [][]Term // explicit trigger(...) groups of the quantifier being translated
+	goalSk   []Term   // goal mode: constants used to skolemize positive single-int foralls
+	skNext   int
+	instAt   []Term   // assumption mode: also instantiate single-int foralls at these index terms (spec functions are inlined)
 }
 
 func (env *exprEnv) fail(format string, a ...any) typedTerm {
@@ -82,6 +87,58 @@ func (env *exprEnv) resolveType(s string) types.Type {
 	}
 	env.fail("unknown type %q", s)
 	return tInt
+}
+
+// trGoal translates a proof goal, skolemizing positive `forall i int` with pre-declared constants
+// (the same constants at which the assumptions' quantifiers are instantiated).
+func (env *exprEnv) trGoal(x *Expr) typedTerm {
+	if len(env.goalSk) == 0 {
+		return env.tr(x)
+	}
+	switch x.op {
+	case "binary":
+		switch x.name {
+		case "==>":
+			a := env.tr(x.args[0])
+			b := env.trGoal(x.args[1])
+			return typedTerm{t: implies(a.t, b.t), typ: tBool}
+		case "&&":
+			a := env.trGoal(x.args[0])
+			b := env.trGoal(x.args[1])
+			return typedTerm{t: and(a.t, b.t), typ: tBool}
+		}
+	case "forall":
+		if len(x.vars) == 1 && isInteger(env.resolveType(x.vars[0].typ)) && env.skNext < len(env.goalSk) {
+			c := env.goalSk[env.skNext]
+			env.skNext++
+			old, had := env.vars[x.vars[0].name]
+			env.vars[x.vars[0].name] = typedTerm{t: c, typ: tInt}
+			b := env.trGoal(x.args[0])
+			if had {
+				env.vars[x.vars[0].name] = old
+			} else {
+				delete(env.vars, x.vars[0].name)
+			}
+			return typedTerm{t: implies("(inr64 "+c+")", b.t), typ: tBool}
+		}
+	case "call":
+		if x.args[0].op == "ident" && env.pkg != nil {
+			if sf := env.w.specs[shortPkg(env.pkg.Pkg)][x.args[0].name]; sf != nil && !sf.rec && len(x.args)-1 == len(sf.params) {
+				sub := &exprEnv{g: env.g, w: env.w, pkg: env.w.byShort[sf.pkg], vars: map[string]typedTerm{}, goalSk: env.goalSk, skNext: env.skNext}
+				for i, p := range sf.params {
+					a := env.tr(x.args[i+1])
+					sub.vars[p.name] = typedTerm{t: a.t, typ: sub.resolveType(p.typ)}
+				}
+				r := sub.trGoal(sf.body)
+				env.skNext = sub.skNext
+				if sub.err != "" {
+					env.fail("spec %s: %s", sf.name, sub.err)
+				}
+				return r
+			}
+		}
+	}
+	return env.tr(x)
 }
 
 func (env *exprEnv) tr(x *Expr) typedTerm {
@@ -153,7 +210,9 @@ func (env *exprEnv) tr(x *Expr) typedTerm {
 			return typedTerm{t: "(str_at " + base.t + " " + idx.t + ")", typ: types.Typ[types.Byte]}
 		case *types.Slice:
 			s := g.sortOf(base.typ)
-			return typedTerm{t: fmt.Sprintf("(select (arr_%s %s) (+ (off_%s %s) %s))", s, base.t, s, base.t, idx.t), typ: bt.Elem()}
+			tm := fmt.Sprintf("(select (arr_%s %s) (+ (off_%s %s) %s))", s, base.t, s, base.t, idx.t)
+			env.idxTerms = append(env.idxTerms, tm)
+			return typedTerm{t: tm, typ: bt.Elem()}
 		case *types.Map:
 			s := g.sortOf(base.typ)
 			return typedTerm{t: fmt.Sprintf("(select (val_%s %s) %s)", s, base.t, idx.t), typ: bt.Elem()}
@@ -209,15 +268,87 @@ func (env *exprEnv) tr(x *Expr) typedTerm {
 			ps = append(ps, "("+nm+" "+g.sortOf(t)+")")
 			guards = append(guards, tmp.typeInv(t, nm))
 		}
+		mark := len(env.idxTerms)
+		savedTrig := env.triggers
+		env.triggers = nil
 		body := env.tr(x.args[0])
+		trig := env.triggers
+		env.triggers = savedTrig
+		// patterns: index terms that mention the bound variables (all of them must be covered)
+		var pats []string
+		covered := map[string]bool{}
+		for _, it := range env.idxTerms[mark:] {
+			uses := false
+			for _, v := range x.vars {
+				for _, tok := range tokenize(it) {
+					if tok == "q!"+v.name {
+						uses = true
+						covered[v.name] = true
+					}
+				}
+			}
+			for _, tok := range tokenize(it) {
+				if strings.HasPrefix(tok, "q!") {
+					if _, bound := env.vars[tok[2:]]; !bound {
+						uses = false // mentions a variable of an inner quantifier
+					}
+				}
+			}
+			if uses && !strings.Contains(it, "ite") {
+				dup := false
+				for _, p := range pats {
+					if p == it {
+						dup = true
+					}
+				}
+				if !dup {
+					pats = append(pats, it)
+				}
+			}
+		}
 		for _, v := range x.vars {
 			delete(env.vars, v.name)
 			if old, ok := saved[v.name]; ok {
 				env.vars[v.name] = old
 			}
 		}
+		if x.op == "forall" && len(env.instAt) > 0 && len(x.vars) == 1 && isInteger(env.resolveType(x.vars[0].typ)) {
+			// explicit instances at the given index terms, in addition to the quantified formula
+			var insts []Term
+			saveI := env.instAt
+			env.instAt = nil
+			for _, at := range saveI {
+				old, had := env.vars[x.vars[0].name]
+				env.vars[x.vars[0].name] = typedTerm{t: at, typ: tInt}
+				insts = append(insts, env.tr(x.args[0]).t)
+				if had {
+					env.vars[x.vars[0].name] = old
+				} else {
+					delete(env.vars, x.vars[0].name)
+				}
+			}
+			env.instAt = saveI
+			q := fmt.Sprintf("(forall (%s) %s)", strings.Join(ps, " "), implies(and(guards...), body.t))
+			return typedTerm{t: and(append([]Term{q}, insts...)...), typ: tBool}
+		}
+		if x.op == "forall" && len(trig) > 0 {
+			inner := implies(and(guards...), body.t)
+			var ps2 []string
+			for _, grp := range trig {
+				ps2 = append(ps2, ":pattern ("+strings.Join(grp, " ")+")")
+			}
+			return typedTerm{t: fmt.Sprintf("(forall (%s) (! %s %s))", strings.Join(ps, " "), inner, strings.Join(ps2, " ")), typ: tBool}
+		}
 		if x.op == "forall" {
-			return typedTerm{t: fmt.Sprintf("(forall (%s) %s)", strings.Join(ps, " "), implies(and(guards...), body.t)), typ: tBool}
+			inner := implies(and(guards...), body.t)
+			if len(pats) > 0 && len(covered) == len(x.vars) && len(x.vars) == 1 {
+				var ps2 []string
+				for _, p := range pats {
+					ps2 = append(ps2, ":pattern ("+p+")")
+				}
+				return typedTerm{t: fmt.Sprintf("(forall (%s) (! %s %s))", strings.Join(ps, " "), inner, strings.Join(ps2, " ")), typ: tBool}
+			}
+			return typedTerm{t: fmt.Sprintf("(forall (%s) %s)", strings.Join(ps, " "), inner), typ: tBool}
 		}
 		return typedTerm{t: fmt.Sprintf("(exists (%s) %s)", strings.Join(ps, " "), and(append(guards, body.t)...)), typ: tBool}
 	case "call":
@@ -373,12 +504,35 @@ func (env *exprEnv) call(x *Expr) typedTerm {
 			return env.fail("len of %s", a.typ)
 		case "old":
 			return env.tr(argEs[0])
+		case "theEcosystem":
+			if env.pkg != nil {
+				if o := env.pkg.Pkg.Scope().Lookup("Ecosystem"); o != nil {
+					pt := types.NewPointer(o.Type())
+					ps := g.sortOf(pt)
+					return typedTerm{t: "(ptr_" + ps + " " + g.zero(o.Type()) + ")", typ: pt}
+				}
+			}
+			return env.fail("no Ecosystem type in this package")
+		case "trigger":
+			var grp []Term
+			for _, a := range argEs {
+				grp = append(grp, env.tr(a).t)
+			}
+			env.triggers = append(env.triggers, grp)
+			return typedTerm{t: "true", typ: tBool}
 		case "isdigits":
 			g.libDep("isdigits")
 			return typedTerm{t: "(L_isdigits " + env.tr(argEs[0]).t + ")", typ: tBool}
 		case "numval":
 			g.libDep("numval")
 			return typedTerm{t: "(L_numval " + env.tr(argEs[0]).t + ")", typ: tInt}
+		case "digdots":
+			g.libDep("digdots")
+			return typedTerm{t: "(L_digdots " + env.tr(argEs[0]).t + ")", typ: tBool}
+		case "strlex":
+			// enables the first-byte facts about Go's lexicographic string order
+			g.libDep("strlex")
+			return typedTerm{t: "true", typ: tBool}
 		case "itoa":
 			g.libDep("itoa")
 			return typedTerm{t: "(L_itoa " + env.tr(argEs[0]).t + ")", typ: tStr}
@@ -490,6 +644,19 @@ func (env *exprEnv) realCall(fn *ssa.Function, recv *typedTerm, argEs []*Expr) t
 // specCall: spec functions are emitted as define-fun (or define-fun-rec) once per query.
 func (env *exprEnv) specCall(sf *SpecFunc, argEs []*Expr) typedTerm {
 	g := env.g
+	if len(env.instAt) > 0 && !sf.rec && len(argEs) == len(sf.params) {
+		// inline so that quantifiers inside the spec body can be instantiated
+		sub := &exprEnv{g: g, w: env.w, pkg: env.w.byShort[sf.pkg], vars: map[string]typedTerm{}, instAt: env.instAt}
+		for i, p := range sf.params {
+			a := env.tr(argEs[i])
+			sub.vars[p.name] = typedTerm{t: a.t, typ: sub.resolveType(p.typ)}
+		}
+		r := sub.tr(sf.body)
+		if sub.err != "" {
+			env.fail("spec %s: %s", sf.name, sub.err)
+		}
+		return typedTerm{t: r.t, typ: env.resolveType(sf.ret)}
+	}
 	sym := "spec_" + sanitize(sf.pkg) + "_" + sanitize(sf.name)
 	rt := env.resolveType(sf.ret)
 	if !g.funSeen[sym] {
